@@ -106,6 +106,11 @@ func (d *EventTriggerDefinition) Validate() error {
 			return fmt.Errorf("duplicate BytesEq log predicate for topic %d at index %d", lp.LogValueRef.Offset, i)
 		}
 		topicMap[lp.LogValueRef.Offset] = struct{}{}
+		if len(lp.ValuePredicate.ByteArgs[0]) != Word {
+			return fmt.Errorf(
+				"BytesEq log predicate for topic %d at index %d must have a 32-byte value, got %d bytes",
+				lp.LogValueRef.Offset, i, len(lp.ValuePredicate.ByteArgs[0]))
+		}
 	}
 
 	return nil
